@@ -195,7 +195,9 @@ if false {
 	},
 	// default_time variants
 	func(r *simrt.RNG, id int) string {
-		tz := []string{"", `, "Asia/Shanghai"`, `, "+8"`, `, "America/St_Johns"`, `, "-3:30"`, `, "Nowhere/Land"`}[r.Intn(6)]
+		tz := []string{"", `, "Asia/Shanghai"`, `, "+8"`, `, "America/St_Johns"`, `, "-3:30"`, `, "Nowhere/Land"`,
+			`, "Europe/Berlin"`, `, "+1"`, `, "-11"`, `, "+5:45"`, `, "Asia/Tokyo"`, `, "+12:45"`, `, "America/Phoenix"`, `, "-7"`, `, "CST"`, `, "UTC"`,
+			`, "Africa/Cairo"`, `, "Australia/Eucla"`, `, "+14"`, `, "Pacific/Apia"`}[r.Intn(20)]
 		return fmt.Sprintf("default_time(ts%s)\nadd_key(after%d, 1)\n", tz, id)
 	},
 	// datetime formatting (local zone)
@@ -283,6 +285,16 @@ if false {
 			return fmt.Sprintf("zz = {\"a\": 1}\nadd_key(pre%d, zz[\"a\"][0])\n", id)
 		}
 	},
+	// printf / strfmt with several arguments, one of which may fail at run time after others were evaluated
+	func(r *simrt.RNG, id int) string {
+		d := r.Intn(3)
+		return fmt.Sprintf("dv = %d\nprintf(\"%%v %%v %%v\\n\", \"p%d\", n, 10 / dv)\nstrfmt(sf%d, \"%%v|%%v\", n, \"x\")\n", d, id, id)
+	},
+	// long digit strings cast to numbers
+	func(r *simrt.RNG, id int) string {
+		v := []string{"1700000000123456789", "-9007199254740993", "123456789012345678901234567890", "0000000000000000042", "12345678901234.5"}[r.Intn(5)]
+		return fmt.Sprintf("add_key(big%d, %q)\ncast(big%d, %q)\nadd_key(cp%d, big%d)\n", id, v, id, []string{"int", "float", "str", "bool"}[r.Intn(4)], id, id)
+	},
 	// infinite loop: only useful with cancellation
 	func(r *simrt.RNG, id int) string {
 		return fmt.Sprintf("c = 0\nfor ;; {\n  c = c + 1\n  if c > %d {\n    break\n  }\n}\nadd_key(spins, c)\n", 5+r.Intn(40))
@@ -307,6 +319,42 @@ func GenScript(r *simrt.RNG, id int) string {
 		b.WriteString(recipes[k](r, id*10+i))
 	}
 	return b.String()
+}
+
+// Layout rewrites a script text without changing its meaning: whitespace between a function
+// name and its parenthesis, blank lines, trailing comments, a comment mentioning a call.
+func Layout(r *simrt.RNG, src string) string {
+	if r.Intn(3) != 0 {
+		return src
+	}
+	lines := strings.Split(src, "\n")
+	for i, ln := range lines {
+		t := strings.TrimLeft(ln, " ")
+		if t == "" || strings.HasPrefix(t, "}") || strings.Contains(ln, "\"") && strings.Count(ln, "(") > 1 {
+			continue
+		}
+		switch r.Intn(6) {
+		case 0:
+			if k := strings.Index(ln, "("); k > 0 && isIdentByte(ln[k-1]) && !strings.Contains(ln[:k], "\"") {
+				lines[i] = ln[:k] + " " + ln[k:]
+			}
+		case 1:
+			if k := strings.Index(ln, "("); k > 0 && isIdentByte(ln[k-1]) && !strings.Contains(ln[:k], "\"") && !strings.HasSuffix(t, "{") {
+				lines[i] = ln[:k] + "\t(" + ln[k+1:]
+			}
+		case 2:
+			if !strings.HasSuffix(t, "{") {
+				lines[i] = ln + "  # trailing note"
+			}
+		case 3:
+			lines[i] = ln + "\n"
+		}
+	}
+	return strings.Join(lines, "\n")
+}
+
+func isIdentByte(c byte) bool {
+	return c == '_' || (c >= 'a' && c <= 'z') || (c >= 'A' && c <= 'Z') || (c >= '0' && c <= '9')
 }
 
 // GenSet returns a script set: valid scripts, use() links, and sometimes broken members.
@@ -334,7 +382,7 @@ func GenSet(r *simrt.RNG) map[string]string {
 		case 2:
 			body += "grok(_, \"%{NO_SUCH_PATTERN:x}\")\n" // check failure inside grok compilation
 		}
-		set[names[i]] = body
+		set[names[i]] = Layout(r, body)
 	}
 	return set
 }
